@@ -398,6 +398,9 @@ def run(chk, replay):
                 "flavour/W); non-trivial = any order other than submission order, or W > 1, or serial vs parallel")
     chk.assumptions = ["the in-process scheduled pool pickles arguments and results like a process boundary does",
                        ".npz containers are compared by member payload (the zip header carries a timestamp)"]
+    if replay and replay["scenario"].get("chef_cwd_history"):
+        from checks import c11
+        return c11.cwd_history(chk)
     if replay and replay["scenario"].get("recipe_history"):
         from checks import c11
         chk.executed("replay")
